@@ -13,7 +13,9 @@
 (*            five tags in three spellings, platform, media type list,       *)
 (*            backup shape, switches, parallel 0-4, populations of four      *)
 (*            source repositories, 2-4 runs of any mode with source tags     *)
-(*            moved, deleted and moved back in between                       *)
+(*            moved, deleted and moved back in between; `page` is the page   *)
+(*            size of the model registries' listings (0 = one page), which   *)
+(*            the design does not look at                                    *)
 (* Random draws are taken in one step into the variable `draws` (explicit   *)
 (* values) and the scenario is built from that variable in the next step,   *)
 (* so that every draw is used exactly as stored.                            *)
@@ -37,7 +39,7 @@ Grid == <<"r1", "r2", "r10", "xr2">>
 \* one explicit record of independent draws (z makes the definition state dependent: TLC would
 \* otherwise evaluate it once when it starts)
 Draw(z) ==
-  [layout |-> RandomElement(1..6), par |-> RandomElement(0..4),
+  [layout |-> RandomElement(1..6), par |-> RandomElement(0..4), page |-> W(<<0, 0, 0, 1, 2>>),
    t1 |-> RandomElement(1..5), t2 |-> RandomElement(1..4),
    flt |-> TLCEval([i \in 1..18 |-> [tags |-> RandomElement(OrdSubs), style |-> W(Styles)]]),
    rflt |-> TLCEval([i \in 1..2 |-> [tags |-> RandomElement(ROrdSubs), style |-> W(<<"alt", "group", "class">>)]]),
@@ -126,5 +128,6 @@ GNext == \/ GDraw \/ GSetup \/ GEnd
          \/ /\ (StartRun \/ EnvMove \/ Idle \/ \E k \in DOMAIN proc : Step(k))
             /\ UNCHANGED <<draws, drawn, scn, hist>>
 GSpec == GInit /\ [][GNext]_gvars
-Emit == Finished => PrintT(<<"SCN", ToJson([conf |-> scn.conf, src |-> scn.src, tgt |-> scn.tgt, steps |-> scn.plan, pred |-> hist])>>)
+Emit == Finished => PrintT(<<"SCN", ToJson([conf |-> scn.conf, src |-> scn.src, tgt |-> scn.tgt, steps |-> scn.plan, pred |-> hist,
+                                                page |-> IF GenMode = "rand" THEN draws.page ELSE 0])>>)
 =============================================================================
